@@ -449,16 +449,32 @@ func c12Script(r *gen.Rng, o *out.W) {
 	will := &packet.Message{Topic: "will/" + fmt.Sprint(w.seq), Payload: []byte(fmt.Sprintf("will-%d", w.seq)), QOS: packet.QOS(r.Intn(3)), Retain: r.Bool()}
 	c := w.Conn()
 	state := r.Intn(5)
-	cause := r.Intn(9)
+	cause := r.Intn(13)
 	desc := fmt.Sprintf("state=%d cause=%d", state, cause)
 	o.Count("c12/" + desc)
+	ka := uint16(0)
+	if cause == 12 {
+		ka = 2
+	}
 	if cause == 8 && creds != nil {
 		w.Connect(c, "V", r.Bool(), will, 0, "user", "wrong") // rejected authentication
+	} else if cause == 9 {
+		// never accepted: the holder of the client id cannot finish dying, Setup runs into the kill timeout
+		old := c
+		w.Connect(old, "V", r.Bool(), nil, 0, user, pass)
+		w.Stall(old)
+		c = w.Conn()
+		w.Connect(c, "V", r.Bool(), will, 0, user, pass)
+		w.Unstall(old)
+	} else if cause == 10 {
+		// never accepted: the backend is shutting down when the CONNECT arrives
+		w.BackendClose()
+		w.Connect(c, "V", r.Bool(), will, 0, user, pass)
 	} else {
 		if state == 0 {
 			// the cause strikes before CONNECT
 		} else {
-			w.Connect(c, "V", r.Bool(), will, 0, user, pass)
+			w.Connect(c, "V", r.Bool(), will, ka, user, pass)
 		}
 		switch state {
 		case 2: // mid inbound QoS 2 handshake
@@ -493,13 +509,23 @@ func c12Script(r *gen.Rng, o *out.W) {
 				w.Send(c, &packet.Pingreq{})
 			case 7:
 				w.Send(c, &packet.Suback{ID: 1, ReturnCodes: []packet.QOS{0}}) // server-only packet
+			case 11:
+				// DISCONNECT while closing the connection reports an error (unflushed output, peer gone): still a clean end
+				w.FailClose(c)
+				w.Send(c, &packet.Disconnect{})
+			case 12:
+				if state != 0 {
+					w.KeepAliveExpire(c)
+				} else {
+					w.Drop(c)
+				}
 			default:
 				w.Drop(c)
 			}
 		}
 	}
 	// a late subscriber sees a retained will
-	if cause != 5 {
+	if cause != 5 && cause != 10 {
 		l := w.Conn()
 		w.Connect(l, "LATE", true, nil, 0, user, pass)
 		w.Subscribe(l, packet.Subscription{Topic: "will/#", QOS: 1})
